@@ -37,6 +37,7 @@ var propSpecs = map[string]*PropSpec{
 		Patterns:    []string{"./..."},
 		Level:       "proof",
 		Explanation: "router.ServeHTTP reaches the handler dispatch only when the route's authentication requirement and every required permission have been checked for the authenticated identity",
+		Extra:       c20Extra,
 	},
 	"C22": {
 		Patterns:    []string{"./..."},
